@@ -1277,6 +1277,48 @@ func (c *Ctx) ruleMarshalGain() {
 			bad = true
 		}
 	}
+	// an uninitialised receiver that adopted the decoded stack returns the decoder's own verdict:
+	// nothing (an emptiness or "did it grow" test meant for the other branch) turns that into an error
+	{
+		mds := c.findCalls(fn, "marshalDefault")
+		nAdopt, wrong := 0, false
+		for _, rs := range fa.rets {
+			if rs.st.dead {
+				continue
+			}
+			adopted := false
+			for _, cell := range rs.st.heap {
+				if cell.loc == "HANDLE" {
+					adopted = true
+				}
+			}
+			if !adopted {
+				continue
+			}
+			nAdopt++
+			okV := false
+			rt := fa.term(rs.st, rs.ret.Results[0])
+			for _, md := range mds {
+				if rt == fa.callResultTerm(rs.st, md, 2) {
+					okV = true
+				}
+			}
+			if v, known := fa.nonNil(rs.st, rs.ret.Results[0]); known && !v {
+				okV = true
+			}
+			if !okV {
+				wrong = true
+			}
+		}
+		switch {
+		case nAdopt == 0:
+			rep.bad("R-MARSHAL", "(*Stack).Marshal", "adoption returns the decoder's verdict", pos, "no return path on which an uninitialised receiver adopts the decoded stack")
+		case wrong:
+			rep.bad("R-MARSHAL", "(*Stack).Marshal", "adoption returns the decoder's verdict", pos, "after adopting the decoded stack Marshal can return an error of its own making (e.g. for an empty decoded stack such as [\"AND\"])")
+		default:
+			rep.ok("R-MARSHAL", "(*Stack).Marshal", "adoption returns the decoder's verdict", pos, fmt.Sprintf("on each of the %d adopting return paths the result is marshalDefault's own error", nAdopt))
+		}
+	}
 	switch {
 	case bad:
 		rep.bad("R-MARSHAL", "(*Stack).Marshal", "receiver gains the decoded value", pos, "Marshal can return a nil error after pushing into an initialised receiver without having observed that its length changed (a full or read-only receiver would silently gain nothing)")
